@@ -89,10 +89,10 @@ def mk_centroid(k):
     return case
 
 
-def case_simplex_volume(ctx):
+def case_simplex_volume(ctx, weights=False):
     from geometer import Triangle, Simplex, Point
     # triangle in the plane: determinant branch
-    pts = _pts2(ctx, 3)
+    pts = _pts2(ctx, 3, weights)
     T = Triangle(*[Point(mk_array(ctx, h)) for _, h in pts])
     V = T.volume
     S2 = _shoelace2([c for c, _ in pts])
@@ -100,12 +100,19 @@ def case_simplex_volume(ctx):
     ctx.require("volume:triangle2d:square", ctx.eq(4 * V * V, S2 * S2))
 
 
-def case_tetra_volume(ctx):
+def case_tetra_volume(ctx, weights=False):
     from geometer import Simplex, Point
     P = [[ctx.real(f"{k}{i}") for i in range(3)] for k in "abcd"]
     D = R.det([p + [1] for p in P])
     ctx.assume(ctx.neg(ctx.is_zero(D)))
-    S = Simplex(*[Point(mk_array(ctx, p + [1])) for p in P])
+    if weights:
+        # every vertex given by an arbitrary non-zero multiple of (x, y, z, 1)
+        W = [ctx.real(f"w{k}") for k in "abcd"]
+        for w in W:
+            ctx.assume(ctx.neg(ctx.is_zero(w)))
+        S = Simplex(*[Point(mk_array(ctx, [w * x for x in p] + [w])) for p, w in zip(P, W)])
+    else:
+        S = Simplex(*[Point(mk_array(ctx, p + [1])) for p in P])
     V = S.volume
     ctx.require("volume:tetrahedron:nonnegative", ctx.le(0, V))
     ctx.require("volume:tetrahedron:square", ctx.eq(36 * V * V, D * D))
@@ -227,6 +234,29 @@ def case_equality(ctx):
     ctx.require("eq:different-vertex-not-equal", not (P == Z))
 
 
+A3_POLYS = [[(0, 0), (2, 0), (2, 1), (0, 1)], [(0, 0), (3, 0), (1, 2)], [(0, 0), (2, 0), (3, 2), (1, 3), (-1, 1)]]
+A3_EMBEDS = [((0, 0, 0), (1, 0, 0), (0, 1, 0), (0, 0, 1)), ((1, 2, 3), (1, 0, 1), (0, 1, 1), (1, 1, -1)), ((2, 0, 0), (0, 1, 0), (0, 0, 1), (1, 0, 0)), ((0, 1, 0), (2, 1, 0), (0, 1, 2), (2, -4, -2))]
+
+
+def mk_area3d_shifted(k, j):
+    """single lattice polygon in the plane  o + t*n + span(u, v)  of 3-space with a free real offset t along the normal: the area does not depend on t (and is |u x v| times the planar area)"""
+    def case(ctx):
+        from geometer import Polygon, Point
+        from fractions import Fraction
+        poly, (o, u, v, nrm) = A3_POLYS[k], A3_EMBEDS[j]
+        t = ctx.real("t")
+        V = [[o[i] + x * u[i] + y * v[i] + t * nrm[i] for i in range(3)] + [1] for x, y in poly]
+        P = Polygon(*[Point(mk_array(ctx, w)) for w in V])
+        A = P.area
+        n = len(poly)
+        sh = sum(poly[i][0] * poly[(i + 1) % n][1] - poly[(i + 1) % n][0] * poly[i][1] for i in range(n))
+        cr = [u[1] * v[2] - u[2] * v[1], u[2] * v[0] - u[0] * v[2], u[0] * v[1] - u[1] * v[0]]
+        sq = Fraction(sh * sh * sum(c * c for c in cr), 4)
+        ctx.require("area3d:nonnegative", ctx.le(0, A))
+        ctx.require("area3d:square-is-|u x v|^2*shoelace^2/4", ctx.eq(A * A, sq if ctx.symbolic else float(sq)))
+    return case
+
+
 def case_cuboid(ctx, with_area=False):
     from geometer import Cuboid, Point
     o = [ctx.real(f"o{i}") for i in range(3)]
@@ -262,7 +292,12 @@ def cases(tier, seed):
     add("centroid_5", mk_centroid(5), tiers=T)
     add("volume_triangle2d", case_simplex_volume, tiers=Q)
     add("volume_tetrahedron", case_tetra_volume, tiers=Q)
+    add("volume_triangle2d_weights", (lambda ctx: case_simplex_volume(ctx, True)), tiers=Q)
+    add("volume_tetrahedron_weights", (lambda ctx: case_tetra_volume(ctx, True)), tiers=Q, max_paths=2000)
     add("volume_triangle3d", case_triangle3d_volume, tiers=Q)
+    for k in range(len(A3_POLYS)):
+        for j in range(len(A3_EMBEDS)):
+            add(f"area3d_poly{k}_plane{j}_free_offset", mk_area3d_shifted(k, j), tiers=Q, max_paths=2000)
     add("midpoint_2d", case_midpoint, tiers=Q, max_paths=2000)
     add("circumcenter_2d", case_circumcenter, tiers=Q, max_paths=2000)
     for n in (3, 4, 6):
